@@ -38,7 +38,7 @@ RULE = ("case = one load under one fault: a fault sequence (enumerated), a kill 
         "distinct by case description."
         " Round-4 classes: the HTTP letter of the fault alphabet stands for a transient status drawn from 503, 429, 408, 500, 502, 504; the remote loader's own defaults (gzip, unpack_dataset_columns) are exercised by omission."
         " Round-5 classes: gzip payloads of 1..3 members.")
-REQUIRED_MONITORS = ["c19:fault_sequence", "c19:kill_line", "c19:kill_call", "c19:concurrent", "c19:flags", "c19:pairs",
+REQUIRED_MONITORS = ["c19:entry_mode", "c19:fault_sequence", "c19:kill_line", "c19:kill_call", "c19:concurrent", "c19:flags", "c19:pairs",
                      "c19:followup_after_kill"]      # c19:kill_syscall / c19:syscall_error need strace (skipped + noted if absent)
 ASSUMPTIONS = ["process crash only (no fsync / power loss claims)", "the fake opener stands for the network"]
 TIMEOUT = {"quick": 900, "thorough": 7200}
@@ -214,6 +214,15 @@ def judge_fault(ctx, nr, seq, fin, r, lst, follow, home=None):
                 return
             if [p[0] for p in files] != [os.path.join("fold", "entry")]:
                 ctx.violation("cache_entry_missing_after_success", cid, detail)
+                return
+            # the entry is an ordinary file of the data home: whoever may read the data home (another account sharing
+            # it, the non-root user of a container whose image pre-fetched the data) can read the entry, as far as the
+            # creating process's umask allows - "a later load succeeds" is not limited to the account that downloaded
+            mode = files[0][2] if len(files[0]) > 2 else None
+            ctx.monitor("c19:entry_mode")
+            if mode is not None and (mode & 0o044) != (0o044 & ~_ds.UMASK):
+                ctx.violation("cache_entry_not_readable_by_other_accounts", cid,
+                              dict(detail, mode=oct(mode), umask=oct(_ds.UMASK)))
                 return
         else:
             if r.get("outcome") != "exc" or r.get("exc_type") != "OSError":
